@@ -19,6 +19,7 @@ type variant struct {
 	order         int  // 0 canonical (by field number), 1 reversed, 2 shuffled
 	packFlip      bool // repeated scalars: the opposite of the declared packing
 	splitPacked   bool // packed lists split into several runs, mixed with unpacked elements
+	emptyRun      bool // with splitPacked: zero-length packed runs (key, length 0) before the elements and as the very last field of the message
 	dupSingular   bool // singular scalar preceded by another occurrence with a different value (last wins)
 	splitMsg      bool // singular message field split over two occurrences (merge)
 	splitEmpty    bool // with splitMsg: cut at the very start or the very end, so that one of the occurrences is empty
@@ -38,6 +39,7 @@ var variantFamilies = []variant{
 	{family: "shuffled", order: 2},
 	{family: "packflip", packFlip: true},
 	{family: "splitpacked", splitPacked: true},
+	{family: "splitpacked-empty", splitPacked: true, emptyRun: true},
 	{family: "dupsingular", dupSingular: true},
 	{family: "splitmsg", splitMsg: true},
 	{family: "splitmsg-empty", splitMsg: true, splitEmpty: true},
@@ -187,7 +189,7 @@ func packable(fd protoreflect.FieldDescriptor) bool {
 
 // message encodes one message; the returned chunks are complete field occurrences.
 func (e *venc) message(m protoreflect.Message, depth int) []byte {
-	var chunks [][]byte
+	var chunks, trailing [][]byte
 	md := m.Descriptor()
 	var fds []protoreflect.FieldDescriptor
 	m.Range(func(fd protoreflect.FieldDescriptor, _ protoreflect.Value) bool { fds = append(fds, fd); return true })
@@ -252,6 +254,14 @@ func (e *venc) message(m protoreflect.Message, depth int) []byte {
 			packed := fd.IsPacked()
 			if e.v.packFlip && packable(fd) {
 				packed = !packed
+				e.applied++
+			}
+			if packable(fd) && e.v.emptyRun && l.Len() >= 1 {
+				// a packed occurrence without elements adds nothing; one goes in front of the elements, one to the very end
+				// of the message (where nothing follows it in the buffer)
+				empty := refwire.AppendLen(refwire.AppendKey(nil, int(fd.Number()), refwire.WTLen), nil)
+				chunks = append(chunks, empty)
+				trailing = append(trailing, empty)
 				e.applied++
 			}
 			switch {
@@ -408,6 +418,9 @@ func (e *venc) message(m protoreflect.Message, depth int) []byte {
 	}
 	var out []byte
 	for _, c := range chunks {
+		out = append(out, c...)
+	}
+	for _, c := range trailing {
 		out = append(out, c...)
 	}
 	return out
